@@ -417,6 +417,8 @@ __CPROVER_assigns(g_consol_n, g_consol_len, *data, *len, connp->in_buf, connp->i
 __CPROVER_ensures(g_consol_n == 1 && (__CPROVER_return_value == HTP_OK ==> g_consol_len == *len))
 __CPROVER_ensures(__CPROVER_return_value == HTP_OK || __CPROVER_return_value == HTP_ERROR)
 __CPROVER_ensures(__CPROVER_return_value == HTP_OK ==> (*len <= LINE_CAP && __CPROVER_is_fresh(*data, *len)))
+/* on failure the out-parameters are not written */
+__CPROVER_ensures(__CPROVER_return_value != HTP_OK ==> (*data == O(*data) && *len == O(*len)))
 __CPROVER_ensures(connp->in_current_consume_offset == O(connp->in_current_consume_offset) || connp->in_current_consume_offset == connp->in_current_read_offset)
 ;
 void contract_htp_connp_req_clear_buffer(htp_connp_t *connp)
@@ -644,6 +646,7 @@ __CPROVER_assigns(g_consol_n, g_consol_len, *data, *len, connp->out_buf, connp->
 __CPROVER_ensures(g_consol_n == 1 && (__CPROVER_return_value == HTP_OK ==> g_consol_len == *len))
 __CPROVER_ensures(__CPROVER_return_value == HTP_OK || __CPROVER_return_value == HTP_ERROR)
 __CPROVER_ensures(__CPROVER_return_value == HTP_OK ==> (*len <= LINE_CAP && __CPROVER_is_fresh(*data, *len)))
+__CPROVER_ensures(__CPROVER_return_value != HTP_OK ==> (*data == O(*data) && *len == O(*len)))
 __CPROVER_ensures(connp->out_current_consume_offset == O(connp->out_current_consume_offset) || connp->out_current_consume_offset == connp->out_current_read_offset)
 ;
 void contract_htp_connp_res_clear_buffer(htp_connp_t *connp)
@@ -669,5 +672,24 @@ __CPROVER_ensures(__CPROVER_return_value == HTP_OK ==> (
 __CPROVER_ensures(connp->out_chunked_length <= INT32_MAX || connp->out_chunked_length == O(connp->out_chunked_length))
 __CPROVER_ensures(connp->out_tx->response_message_len >= O(connp->out_tx->response_message_len))
 __CPROVER_ensures(RS_COMMON_POST(connp))
+;
+
+/* ==== request finalisation: what follows a complete request ============================================== */
+/* Either the next request starts here (known method / nothing left) and the transaction completes without consuming it,
+ * or the line is "unexpected body": then it is handed to the body sink and counted like any other body byte (C06). */
+htp_status_t contract_htp_connp_REQ_FINALIZE(htp_connp_t *connp)
+__CPROVER_requires(RQ_PRE(connp, htp_connp_REQ_FINALIZE) && g_consol_n == 0 && g_clear_n == 0 && g_txstate_n == 0 && g_body_n == 0)
+__CPROVER_assigns(g_consol_n, g_consol_len, g_clear_n, g_txstate_n, g_txstate_which, BODY_LOG_ASSIGNS, __CPROVER_object_whole(connp), __CPROVER_object_whole(connp->in_tx))
+__CPROVER_frees(connp->in_tx)
+/* the line is not complete yet: wait, nothing delivered, nothing completed */
+__CPROVER_ensures(__CPROVER_return_value == HTP_DATA_BUFFER ==> (g_body_n == 0 && g_txstate_n == 0 && g_clear_n == 0 && connp->in_tx == O(connp->in_tx) && connp->in_state == O(connp->in_state)))
+/* completion and delivery exclude each other in one call; at most one delivery */
+__CPROVER_ensures(g_body_n <= 1 && !(g_body_n == 1 && g_txstate_n == 1))
+/* unexpected body: the delivered bytes are the consolidated line, they are counted in the message length, and the line is discarded afterwards (delivered exactly once) */
+__CPROVER_ensures(g_body_n == 1 ==> (g_body_len <= LINE_CAP && g_clear_n == 1 && __CPROVER_return_value == g_body_rc && connp->in_tx == O(connp->in_tx)))
+__CPROVER_ensures((g_body_n == 1 && g_body_len <= LINE_CAP) ==> connp->in_tx->request_message_len == O(connp->in_tx->request_message_len) + (int64_t) g_body_len)
+/* completion never discards the pending bytes: the next request line is still there for REQ_LINE */
+__CPROVER_ensures(g_txstate_n == 1 ==> g_clear_n == 0)
+__CPROVER_ensures(RQ_COMMON_POST(connp))
 ;
 #endif
